@@ -36,6 +36,8 @@ def opset():
             ("CNotB", cust("CNotB", [B, Q], [B, Q]), ["B", "Q"], ["B", "Q"]),
             ("Swap", cust("SwapQB", [Q, B], [B, Q]), ["Q", "B"], ["B", "Q"]),
             ("Toffoli", cust("CCX", [Q, Q, Q], [Q, Q, Q]), ["Q", "Q", "Q"], ["Q", "Q", "Q"]),
+            ("Wide9", cust("Wide9", [Q] * 5 + [B] * 4, [B] * 4 + [Q] * 5), ["Q"] * 5 + ["B"] * 4, ["B"] * 4 + ["Q"] * 5),
+            ("Fan", cust("Fan", [B], [B] * 10), ["B"], ["B"] * 10),
         ]
     return _OPS
 
@@ -62,12 +64,13 @@ def run(ctx):
 
     ch = ctx.ch
     Q, B = tys.Qubit, tys.Bool
-    n_in = ch.draw(5, "n-inputs")
+    large = ch.coin(1, 25, "size-class-large")
+    n_in = ch.draw(5, "n-inputs") + (6 + ch.draw(10, "n-inputs-large") if large else 0)
     in_kinds = [ch.pick(["Q", "B"], "in-type") for _ in range(n_in)]
     in_tys = [Q if k == "Q" else B for k in in_kinds]
     track_inputs = ch.coin(1, 2, "track-inputs-ctor")
     use_meta = ch.coin(1, 2, "p-meta")
-    ctx.profile = {"inputs": "".join(in_kinds), "track_inputs": track_inputs, "meta": use_meta}
+    ctx.profile = {"inputs": "".join(in_kinds), "track_inputs": track_inputs, "meta": use_meta, "large": large}
     t = TrackedDfg(*in_tys, track_inputs=track_inputs)
     p = Dfg(*in_tys)
     ctx.ev(0, "TrackedDfg", {"inputs": in_kinds, "track_inputs": track_inputs})
@@ -135,11 +138,13 @@ def run(ctx):
             results.append((name, mk, ins, outs, args))
         return results
 
-    nsteps = 2 + ch.draw(25, "nsteps")
+    nsteps = 2 + ch.draw(25, "nsteps") + (30 + ch.draw(50, "nsteps-large") if large else 0)
+    if large:
+        ctx.probe("large_circuit")
     closed = False
     made_cmds: list = []
     for _ in range(nsteps):
-        k = ch.weighted([8, 3, 2, 1, 2, 2, 1, 1 if use_meta else 0], "step")
+        k = ch.weighted([8, 3, 2, 1, 2, 2, 0 if large else 1, 1 if use_meta else 0], "step")
         ctx.steps += 1
         if k == 7:
             # a client annotates one node after the fact, the same way in both HUGRs: it shows on that node only
@@ -154,7 +159,7 @@ def run(ctx):
             check_hugrs("annotate")
             continue
         if k in (0, 1):  # add / extend
-            cmds = do_cmd(1 if k == 0 else 1 + ch.draw(3, "n-cmds"))
+            cmds = do_cmd(1 if k == 0 else 1 + ch.draw(3, "n-cmds") + (ch.draw(6, "n-cmds-large") if large else 0))
             reuse_hit = None
             if made_cmds and ch.coin(1, 4, "reuse-command-object"):
                 # a Command is a value: the same object may be added again later, when its indices denote other wires
